@@ -1,6 +1,7 @@
 package sim
 
 import (
+	"context"
 	"fmt"
 	"io"
 	"strconv"
@@ -8,17 +9,19 @@ import (
 	"time"
 
 	xmpp "gosrc.io/xmpp"
+	"gosrc.io/xmpp/stanza"
 )
 
 // C09 — stream management: the reported inbound count equals the number of
 // stanzas received on the stream-managed session.
 
 type c09Part struct {
-	ResumeReply string `json:"resume_reply,omitempty"` // how the server answers <resume/> on this connection: ok | failed
-	Inbound     []InEl `json:"inbound"`
-	Cut         bool   `json:"cut_then_resume"`
-	CutAt       int64  `json:"cut_at"`
-	CutKind     string `json:"cut_kind"`
+	ResumeReply string   `json:"resume_reply,omitempty"` // how the server answers <resume/> on this connection: ok | failed
+	Inbound     []InEl   `json:"inbound"`
+	PendingIDs  []string `json:"requests_pending_when_the_history_arrives,omitempty"` // ids of SendIQ requests the application issued before; some inbound IQs answer them
+	Cut         bool     `json:"cut_then_resume"`
+	CutAt       int64    `json:"cut_at"`
+	CutKind     string   `json:"cut_kind"`
 }
 
 type c09Scenario struct {
@@ -87,7 +90,12 @@ func runC09(e *Engine, g G, o RunOpt) RunInfo {
 			part.ResumeReply = "failed"
 		}
 		managed := !(sc.FirstUnmanaged && p == 0) && !(sc.MiddleUnmanaged && p == 1)
-		part.Inbound = GenInbound(g, n, InboundOpts{AllowR: managed, AllowA: managed, MaxA: 3, AllowIQReq: true, AllowNested: true, AllowSpace: true, AllowEntity: true, IDPrefix: fmt.Sprintf("p%d-", p)})
+		if managed && g.Pct("pending-requests", 30) {
+			for k, nk := 0, g.Range("npending", 1, 3); k < nk; k++ {
+				part.PendingIDs = append(part.PendingIDs, fmt.Sprintf("pq%d-%d", p, k+1))
+			}
+		}
+		part.Inbound = GenInbound(g, n, InboundOpts{AllowR: managed, AllowA: managed, MaxA: 3, AllowIQReq: true, AllowNested: true, AllowSpace: true, AllowEntity: true, IDPrefix: fmt.Sprintf("p%d-", p), ResultIDs: part.PendingIDs})
 		// sprinkle other non-stanza elements
 		for i := range part.Inbound {
 			if !part.Inbound[i].Stanza && part.Inbound[i].Kind == "a" && g.Pct("other", 30) {
@@ -176,6 +184,21 @@ func runC09(e *Engine, g G, o RunOpt) RunInfo {
 					cli.CutErr = resetErr("read")
 					cli.CutDiscard = part.CutKind == "rst-discard"
 				}
+			}
+			for _, id := range part.PendingIDs {
+				// requests of the application that are still unanswered when the history arrives:
+				// their answers are stanzas like any other
+				iq, _ := stanza.NewIQ(stanza.Attrs{Type: stanza.IQTypeGet, Id: id, To: SimDomain})
+				iq.Payload = &stanza.Version{}
+				ctx, cancel := context.WithCancel(context.Background())
+				defer cancel()
+				id := id
+				e.Call("SendIQ "+id, func() error { _, err := w.Client.SendIQ(ctx, iq); return err })
+			}
+			if len(part.PendingIDs) > 0 {
+				e.Sleep(50 * time.Millisecond)
+				e.Probe("c09.requests_pending")
+				pc.base = conn.End.TotalWritten
 			}
 			var all strings.Builder
 			for _, el := range part.Inbound {
